@@ -41,6 +41,17 @@ Fixpoint has_dup_str (l : list string) : bool :=
 
 Inductive kind := Control | Noise.
 
+(* The four mechanisms introduced by the fix: commits 628883f, 1b28810, 818a95a.  The model of the CURRENT
+   code is the instance [current] (all on); the other instances are the pre-fix behaviours, kept only to show
+   by witnesses that the theorems depend on each mechanism (Proofs/Concat.v, *_prefix_refuted).            *)
+Record mech := mkMech {
+  m_map_all : bool;      (* identifier mapping updated for EVERY pulse holding a clashing operator (else: first only) *)
+  m_dup_check : bool;    (* ValueError when a suffixed identifier is already in use *)
+  m_pc_general : bool;   (* calc_pulse_correlation_FF=True disables the two shortcuts of concatenate *)
+  m_rows_by_id : bool }. (* rows of a pulse's control matrix ordered by its mapped identifiers (argsort) *)
+Definition current : mech := mkMech true true true true.
+Definition prefix : mech := mkMech false false false false.
+
 Section Bookkeeping.
 Variables oper coef : Type.
 Variable oeqb : oper -> oper -> bool.
@@ -54,6 +65,7 @@ Record ham := mkHam { h_ndt : nat; h_entries : list entry }.
 
 Inductive herror :=
 | EOperIds (k : kind)      (* 'Trying to concatenate pulses with equal .. operators but different identifiers' *)
+| EDupIds (k : kind)       (* 'Cannot disambiguate clashing .. identifiers, the suffixed identifier is already in use' *)
 | ENoInfer.                (* 'Not all pulses have the same noise operators and non-trivial noise sensitivities ..' *)
 
 Record hresult := mkHRes {
@@ -93,13 +105,19 @@ Definition new_id (hs : list ham) (u : nat * entry) : string :=
 (* first pulse holding operator o (bisect(pulse_idx, hashed_opers.index(op))) *)
 Definition first_pulse (hs : list ham) (o : oper) : option nat :=
   option_map fst (find (fun u => oeqb o (e_op (snd u))) (uniq hs)).
-(* pulse_identifier_mapping[p]: identity, updated ONLY for the pulse that holds the operator first *)
-Definition mapping_of (hs : list ham) (p : nat) (h : ham) : list (string * string) :=
-  map (fun e => (e_id e,
-                 if id_clash hs (e_id e) && (match first_pulse hs (e_op e) with Some q => q =? p | None => false end)
-                 then suffix (e_id e) p else e_id e)) (h_entries h).
-Fixpoint mappings_from (hs : list ham) (p : nat) (l : list ham) : list (list (string * string)) :=
-  match l with [] => [] | h :: r => mapping_of hs p h :: mappings_from hs (S p) r end.
+(* pulse_identifier_mapping[p]: identity, updated for every pulse holding a clashing operator with the new
+   identifier of that operator (suffix = FIRST pulse holding it).  Pre-fix: only for that first pulse.       *)
+Definition mapped_id (mc : mech) (hs : list ham) (p : nat) (e : entry) : string :=
+  if id_clash hs (e_id e) then
+    match first_pulse hs (e_op e) with
+    | Some q => if m_map_all mc || (q =? p) then suffix (e_id e) q else e_id e
+    | None => e_id e
+    end
+  else e_id e.
+Definition mapping_of (mc : mech) (hs : list ham) (p : nat) (h : ham) : list (string * string) :=
+  map (fun e => (e_id e, mapped_id mc hs p e)) (h_entries h).
+Fixpoint mappings_from (mc : mech) (hs : list ham) (p : nat) (l : list ham) : list (list (string * string)) :=
+  match l with [] => [] | h :: r => mapping_of mc hs p h :: mappings_from mc hs (S p) r end.
 
 (* coefficient row of the distinct operator o: per pulse its own row, NaN (None) where absent *)
 Definition row_of (hs : list ham) (o : oper) : list (option coef) :=
@@ -125,13 +143,15 @@ Definition complete_row (k : kind) (row : list (option coef)) : option (list coe
 Fixpoint all_some {X} (l : list (option X)) : option (list X) :=
   match l with [] => Some [] | None :: _ => None | Some x :: r => option_map (cons x) (all_some r) end.
 
-Definition concatenate_hamiltonian (k : kind) (hs : list ham) : herror + hresult :=
+Definition concatenate_hamiltonian_gen (mc : mech) (k : kind) (hs : list ham) : herror + hresult :=
   if oper_ids_clash hs then inl (EOperIds k) else
+  if m_dup_check mc && has_dup_str (map (new_id hs) (uniq hs)) then inl (EDupIds k) else
   let us := sort_by (new_id hs) (uniq hs) in
   match all_some (map (fun u => complete_row k (row_of hs (e_op (snd u)))) us) with
   | None => inl ENoInfer
-  | Some rows => inr (mkHRes (map (fun u => e_op (snd u)) us) (map (new_id hs) us) rows (mappings_from hs 0 hs))
+  | Some rows => inr (mkHRes (map (fun u => e_op (snd u)) us) (map (new_id hs) us) rows (mappings_from mc hs 0 hs))
   end.
+Definition concatenate_hamiltonian := concatenate_hamiltonian_gen current.
 
 (* ---------------------------------------------------------------------------------------- *)
 (* concatenate_without_filter_function                                                        *)
@@ -148,16 +168,17 @@ Definition all_equal_nat (l : list nat) : bool :=
   match l with [] => false | x :: r => forallb (Nat.eqb x) r end.
 Record newpulse := mkNew { n_ctrl : hresult; n_noise : hresult; n_dt : list coef }.
 
-Definition concatenate_without_ff (ps : list pulse) : cerror + newpulse :=
+Definition concatenate_without_ff_gen (mc : mech) (ps : list pulse) : cerror + newpulse :=
   if negb (all_equal_nat (map p_d ps)) then inl EShapes else
   if negb (all_equal_nat (map p_basis ps)) then inl EBases else
-  match concatenate_hamiltonian Control (map p_ctrl ps) with
+  match concatenate_hamiltonian_gen mc Control (map p_ctrl ps) with
   | inl e => inl (EHam e)
-  | inr c => match concatenate_hamiltonian Noise (map p_noise ps) with
+  | inr c => match concatenate_hamiltonian_gen mc Noise (map p_noise ps) with
              | inl e => inl (EHam e)
              | inr n => inr (mkNew c n (concat (map p_dt ps)))
              end
   end.
+Definition concatenate_without_ff := concatenate_without_ff_gen current.
 
 (* ---------------------------------------------------------------------------------------- *)
 (* decision logic of concatenate                                                              *)
@@ -183,13 +204,14 @@ Definition grids_of (cs : list cache) : list nat := somes (map c_omega cs).
 Definition count_true (l : list bool) : nat := length (filter (fun b => b) l).
 
 (* the part of concatenate after the frequencies [w] are settled *)
-Definition finish (equal_n lens_ok rows_ok : bool) (o : opts) (w : nat) : outcome :=
-  if negb equal_n then
+Definition finish_gen (mc : mech) (equal_n lens_ok rows_ok : bool) (o : opts) (w : nat) : outcome :=
+  if negb equal_n && negb (m_pc_general mc && o_pc o) then
     (* newpulse.cache_filter_function(omega, which=which): from scratch, no correlations *)
     ORet (mkRet PScratch true (Some w) true true (o_gen o) false false)
   else if negb lens_ok then ORaise EIndexError
   else if negb rows_ok then ORaise EShapeError
   else ORet (mkRet PAtomic true (Some w) true true (o_gen o) (o_pc o) (o_pc o && o_gen o)).
+Definition finish := finish_gen current.
 
 (* the identifiers each pulse is believed to hold (values of its identifier mapping), the sorted union,
    and `equal_n_opers = (n_opers_present.sum(axis=0) > 1).any()` *)
@@ -204,7 +226,7 @@ Definition equal_n_opers (maps : list (list (string * string))) : bool :=
 
 (* [new_ids]: noise identifiers of the new pulse; [maps]: noise identifier mapping returned by the Hamiltonian
    concatenation; [nn]: number of noise operators of each input pulse *)
-Definition decide (new_ids : list string) (maps : list (list (string * string))) (nn : list nat)
+Definition decide_gen (mc : mech) (new_ids : list string) (maps : list (list (string * string))) (nn : list nat)
                   (cs : list cache) (o : opts) : outcome :=
   let tp := forallb c_tp cs in
   if is_tfalse (o_ff o) && negb (o_pc o) then ORet (ham_only tp) else
@@ -212,7 +234,7 @@ Definition decide (new_ids : list string) (maps : list (list (string * string)))
   let lens_ok := length (unique_ids maps) =? length new_ids in
   let rows_ok := forallb (fun x => count_true (fst x) =? snd x) (combine (present maps) nn) in
   match o_omega o with
-  | Some w => finish equal_n lens_ok rows_ok o w
+  | Some w => finish_gen mc equal_n lens_ok rows_ok o w
   | None =>
       let cms := map c_cm cs in
       let any_cm := existsb (fun b => b) cms in
@@ -221,28 +243,36 @@ Definition decide (new_ids : list string) (maps : list (list (string * string)))
         if is_ttrue (o_ff o) then ORaise EForced
         else if o_pc o then ORaise ENoFreqPC
         else ORet (ham_only tp)
-      else if is_tnone (o_ff o) && (negb equal_n || negb any_cm) then ORet (ham_only tp)
-      else match gs with w :: _ => finish equal_n lens_ok rows_ok o w | [] => ORet (ham_only tp) end
+      else if is_tnone (o_ff o) && negb (m_pc_general mc && o_pc o) && (negb equal_n || negb any_cm) then ORet (ham_only tp)
+      else match gs with w :: _ => finish_gen mc equal_n lens_ok rows_ok o w | [] => ORet (ham_only tp) end
   end.
+Definition decide := decide_gen current.
 
-Definition concatenate_outcome (ps : list pulse) (cs : list cache) (o : opts) : outcome :=
+Definition concatenate_outcome_gen (mc : mech) (ps : list pulse) (cs : list cache) (o : opts) : outcome :=
   match ps with
   | [_] => OCopy
-  | _ => match concatenate_without_ff ps with
+  | _ => match concatenate_without_ff_gen mc ps with
          | inl e => ORaise e
-         | inr np => decide (r_ids (n_noise np)) (r_map (n_noise np))
-                            (map (fun p => length (h_entries (p_noise p))) ps) cs o
+         | inr np => decide_gen mc (r_ids (n_noise np)) (r_map (n_noise np))
+                                (map (fun p => length (h_entries (p_noise p))) ps) cs o
          end
   end.
+Definition concatenate_outcome := concatenate_outcome_gen current.
 
-(* row bookkeeping of the atomic path: control_matrix_atomic[i, idx] = pulse.get_control_matrix(omega) puts the
-   k-th row of the pulse's own control matrix (own identifier order) into the k-th selected row of the new
-   pulse (new identifier order).  [row_sources] gives for pulse i and new row r the index of the pulse's own
-   row that lands there (None: the operator is treated as absent and computed from scratch).               *)
+(* row bookkeeping of the atomic path:
+     order = np.argsort([n_oper_mapping[i][identifier] for identifier in pulse.n_oper_identifiers])
+     control_matrix_atomic[i, idx] = pulse.get_control_matrix(omega)[order]
+   The k-th selected row of the new pulse (new identifier order) receives row order[k] of the pulse's own control
+   matrix (pre-fix: row k, i.e. the pulse's own identifier order).  [row_sources] gives for pulse i and new row r
+   the index of the pulse's own row that lands there (None: operator absent, computed from scratch).          *)
 Fixpoint rank_rows (k : nat) (mask : list bool) : list (option nat) :=
   match mask with [] => [] | true :: r => Some k :: rank_rows (S k) r | false :: r => None :: rank_rows k r end.
-Definition row_sources (new_ids : list string) (maps : list (list (string * string))) : list (list (option nat)) :=
-  map (fun m => rank_rows 0 (map (fun u => mem_str u (map snd m)) new_ids)) maps.
+Definition argsort (l : list string) : list nat :=
+  map fst (sort_by (fun x : nat * string => snd x) (combine (seq 0 (length l)) l)).
+Definition row_sources_gen (mc : mech) (new_ids : list string) (maps : list (list (string * string))) : list (list (option nat)) :=
+  map (fun m => let ranks := rank_rows 0 (map (fun u => mem_str u (map snd m)) new_ids) in
+                if m_rows_by_id mc then map (option_map (fun k => nth k (argsort (map snd m)) 0)) ranks else ranks) maps.
+Definition row_sources := row_sources_gen current.
 
 End Bookkeeping.
 
